@@ -221,10 +221,7 @@ func consumeMessage(b []byte, m proto.Message, wtyp protowire.Type, opts unmarsh
 	if n < 0 {
 		return out, errDecode
 	}
-	o, err := opts.Options().UnmarshalState(protoiface.UnmarshalInput{
-		Buf:     v,
-		Message: m.ProtoReflect(),
-	})
+	o, err := opts.unmarshalNested(v, m.ProtoReflect())
 	if err != nil {
 		return out, err
 	}
@@ -365,10 +362,7 @@ func consumeGroup(b []byte, m proto.Message, num protowire.Number, wtyp protowir
 	if n < 0 {
 		return out, errDecode
 	}
-	o, err := opts.Options().UnmarshalState(protoiface.UnmarshalInput{
-		Buf:     b,
-		Message: m.ProtoReflect(),
-	})
+	o, err := opts.unmarshalNested(b, m.ProtoReflect())
 	if err != nil {
 		return out, err
 	}
@@ -506,10 +500,7 @@ func consumeMessageSlice(b []byte, p pointer, goType reflect.Type, wtyp protowir
 		return out, errDecode
 	}
 	mp := reflect.New(goType.Elem())
-	o, err := opts.Options().UnmarshalState(protoiface.UnmarshalInput{
-		Buf:     v,
-		Message: asMessage(mp).ProtoReflect(),
-	})
+	o, err := opts.unmarshalNested(v, asMessage(mp).ProtoReflect())
 	if err != nil {
 		return out, err
 	}
@@ -574,10 +565,7 @@ func consumeMessageSliceValue(b []byte, listv protoreflect.Value, _ protowire.Nu
 		return protoreflect.Value{}, out, errDecode
 	}
 	m := list.NewElement()
-	o, err := opts.Options().UnmarshalState(protoiface.UnmarshalInput{
-		Buf:     v,
-		Message: m.Message(),
-	})
+	o, err := opts.unmarshalNested(v, m.Message())
 	if err != nil {
 		return protoreflect.Value{}, out, err
 	}
@@ -643,10 +631,7 @@ func consumeGroupSliceValue(b []byte, listv protoreflect.Value, num protowire.Nu
 		return protoreflect.Value{}, out, errDecode
 	}
 	m := list.NewElement()
-	o, err := opts.Options().UnmarshalState(protoiface.UnmarshalInput{
-		Buf:     b,
-		Message: m.Message(),
-	})
+	o, err := opts.unmarshalNested(b, m.Message())
 	if err != nil {
 		return protoreflect.Value{}, out, err
 	}
@@ -730,10 +715,7 @@ func consumeGroupSlice(b []byte, p pointer, num protowire.Number, wtyp protowire
 		return out, errDecode
 	}
 	mp := reflect.New(goType.Elem())
-	o, err := opts.Options().UnmarshalState(protoiface.UnmarshalInput{
-		Buf:     b,
-		Message: asMessage(mp).ProtoReflect(),
-	})
+	o, err := opts.unmarshalNested(b, asMessage(mp).ProtoReflect())
 	if err != nil {
 		return out, err
 	}
